@@ -131,7 +131,7 @@ func TestObjGen(t *testing.T) {
 					// Data of the other segments is held back and arrives only after the failure was reported
 					bh := -1
 					if cur, ok := newest[on]; ok && cur[1] > 16000 && rng.Intn(4) == 0 {
-						bh = 1 + rng.Intn(2)
+						bh = []int{2, 2, 2, 1}[rng.Intn(4)]
 					}
 					segOf := func(b enc.Buffer) int {
 						p, _, err := spec.ReadPacket(enc.NewBufferReader(b))
@@ -145,13 +145,19 @@ func TestObjGen(t *testing.T) {
 							n = p.Data.NameV
 						}
 						for _, c := range n {
+							if c.Typ == enc.TypeKeywordNameComponent { // metadata / version discovery, not a content segment
+								return -1
+							}
+						}
+						for _, c := range n {
 							if c.Typ == enc.TypeSegmentNameComponent {
 								return int(c.NumberVal())
 							}
 						}
 						return -1
 					}
-					var held []enc.Buffer
+					var held, nacks []enc.Buffer
+					nack := rng.Intn(2) == 0
 					for step := 0; step < 3000 && !done; step++ {
 						synctest.Wait()
 						var batch []enc.Buffer
@@ -166,6 +172,12 @@ func TestObjGen(t *testing.T) {
 						var replies []enc.Buffer
 						for _, b := range batch {
 							if bh >= 0 && segOf(b) == bh {
+								if nack { // a final failure while other segments are still outstanding
+									lp := &spec.Packet{LpPacket: &spec.LpPacket{Nack: &spec.NetworkNack{Reason: spec.NackReasonCongestion}, Fragment: enc.Wire{b}}}
+									pe := spec.PacketEncoder{}
+									pe.Init(lp)
+									nacks = append(nacks, pe.Encode(lp).Join())
+								}
 								continue
 							}
 							key := string(b[:min(48, len(b))])
@@ -184,8 +196,10 @@ func TestObjGen(t *testing.T) {
 							}
 						}
 						rng.Shuffle(len(replies), func(i, j int) { replies[i], replies[j] = replies[j], replies[i] })
+						replies = append(replies, nacks...)
+						nacks = nil
 						for _, p := range replies {
-							if bh >= 0 && segOf(p) >= 0 {
+							if bh >= 0 && segOf(p) >= 1 { // segment 0 opens the window; everything after it is late
 								held = append(held, p)
 								continue
 							}
